@@ -486,6 +486,19 @@ structure Entry where
   rr : RR
   deriving DecidableEq, Repr
 
+/-- one entry of `Reader.saved_state`: what `$INCLUDE` pushes and the end of the included file pops — the parent's
+tokenizer (positioned after the `$INCLUDE` line), `current_origin`, `last_name`, `last_ttl(_known)`,
+`default_ttl(_known)` (`current_file` has no counterpart: files are texts here) -/
+structure Saved where
+  tok : TState
+  currentOrigin : Option Name
+  lastName : Option Name
+  lastTTL : Nat
+  lastTTLKnown : Bool
+  defaultTTL : Nat
+  defaultTTLKnown : Bool
+  deriving Repr
+
 structure PState where
   tok : TState
   zoneOrigin : Option Name
@@ -498,7 +511,24 @@ structure PState where
   defaultTTLKnown : Bool := false
   /-- which variant of the generic-syntax reader the code implements (false = as shipped) -/
   gfix : Bool := false
+  /-- `$INCLUDE`: the stack `saved_state`, the files that can be opened (name as written ↦ content) and whether
+  `$INCLUDE` is among `allowed_directives` -/
+  saved : List Saved := []
+  files : List (List Nat × List Nat) := []
+  allowInclude : Bool := false
   deriving Repr
+
+/-- `open(filename)` -/
+def lookupFile (files : List (List Nat × List Nat)) (name : List Nat) : Option (List Nat) :=
+  match files with
+  | [] => none
+  | (n, c) :: rest => if n = name then some c else lookupFile rest name
+
+/-- the end of an included file: `(...) = self.saved_state.pop(-1)` -/
+def PState.restore (r : PState) (sv : Saved) (rest : List Saved) : PState :=
+  { r with tok := sv.tok, currentOrigin := sv.currentOrigin, lastName := sv.lastName, lastTTL := sv.lastTTL,
+           lastTTLKnown := sv.lastTTLKnown, defaultTTL := sv.defaultTTL, defaultTTLKnown := sv.defaultTTLKnown,
+           saved := rest }
 
 def PState.init (text : List Nat) (origin : Option Name) (rel : Bool) (gfix : Bool := false) : PState :=
   { tok := TState.init text, zoneOrigin := origin, relativize := rel, currentOrigin := origin, lastName := origin,
@@ -858,7 +888,11 @@ inductive LineEv where
 /-- one iteration of the `while 1` loop of `Reader.read`, up to the zone update -/
 def lineStep (r : PState) : RM (LineEv × PState) := do
   let (t, s) ← liftT (r.tok.get (wantLeading := true) (wantComment := true))
-  if t.ttype = .eof then pure (.eof, r)
+  if t.ttype = .eof then
+    -- the end of an included file pops the saved state and the parent file goes on; of the top file: `break`
+    match r.saved with
+    | [] => pure (.eof, r)
+    | sv :: rest => pure (.nothing, r.restore sv rest)
   else if t.ttype = .eol then pure (.nothing, { r with tok := s })
   else if t.ttype = .comment then do
     let (_, s) ← liftT s.getEol
@@ -884,7 +918,30 @@ def lineStep (r : PState) : RM (LineEv × PState) := do
                                zoneOrigin := (match r.zoneOrigin with | none => some n | some z => some z) })
     else if c = s2l "$GENERATE" then pure (.generate, { r with tok := s })
     else if c = s2l "$UNICODE" then .error .unmodelled
-    else .error .syntaxError                     -- not allowed ($INCLUDE) or unknown
+    else if c = s2l "$INCLUDE" then
+      if !r.allowInclude then .error .syntaxError          -- not in `allowed_directives`
+      else do
+        -- `$INCLUDE file [origin]`
+        let (t1, s) ← liftT s.get
+        let filename := t1.value
+        let (t2, s) ← liftT s.get
+        let (newOrigin, s) ←
+          if t2.isIdentifier then
+            match fromText t2.value r.currentOrigin with
+            | .error e => (.error (.ofName e) : RM (Option Name × TState))
+            | .ok n => do
+              let (_, s) ← liftT s.getEol
+              pure (some n, s)
+          else if !t2.isEolOrEof then .error .syntaxError
+          else pure (r.currentOrigin, s)
+        -- the state saved is the parent's: tokenizer after the line, and the origin *before* the include's own
+        match lookupFile r.files filename with
+        | none => .error (.other "OSError")
+        | some content =>
+          pure (.nothing, { r with tok := TState.init content, currentOrigin := newOrigin,
+                                   saved := ⟨s, r.currentOrigin, r.lastName, r.lastTTL, r.lastTTLKnown, r.defaultTTL,
+                                             r.defaultTTLKnown⟩ :: r.saved })
+    else .error .syntaxError                     -- unknown directive
   else do
     let s ← liftT (s.unget t)
     let (e, r) ← rrParse { r with tok := s }
@@ -912,8 +969,15 @@ def readLoop : Nat → PState → ZoneMap → RM (PState × ZoneMap)
     | none => pure (r, z)
     | some (r, z) => readLoop f r z
 
+/-- fuel for the files `$INCLUDE` may open (every step consumes input or pops; a file is charged 16 times, which
+covers every include tree the harness builds) -/
+def includeFuel : List (List Nat × List Nat) → Nat
+  | [] => 0
+  | f :: rest => 16 * (f.2.length + 2) + includeFuel rest
+
 /-- `Reader.read()` into an empty zone -/
-def PState.read (r : PState) : RM (PState × ZoneMap) := readLoop (r.tok.input.length + 2) r []
+def PState.read (r : PState) : RM (PState × ZoneMap) :=
+  readLoop (r.tok.input.length + 2 + includeFuel r.files) r []
 
 /-- `Zone.check_origin()` -/
 def checkOrigin (z : ZoneMap) (origin : Option Name) (rel : Bool) : RM Unit :=
@@ -931,9 +995,10 @@ def checkOrigin (z : ZoneMap) (origin : Option Name) (rel : Bool) : RM Unit :=
 
 /-- `dns.zone.from_text(text, origin, relativize=rel, check_origin=chk)` (class IN): the loaded nodes and the
 zone's origin -/
-def zoneFromText (text : List Nat) (origin : Option Name) (rel chk : Bool) (gfix : Bool := false) :
+def zoneFromText (text : List Nat) (origin : Option Name) (rel chk : Bool) (gfix : Bool := false)
+    (files : List (List Nat × List Nat) := []) (allowInclude : Bool := false) :
     RM (ZoneMap × Option Name) := do
-  let (r, z) ← (PState.init text origin rel gfix).read
+  let (r, z) ← ({ PState.init text origin rel gfix with files := files, allowInclude := allowInclude } : PState).read
   -- `_end_transaction` commits (and with it hands the origin learnt from `$ORIGIN` to the zone) only when the
   -- version changed, i.e. when at least one record was added; otherwise the zone keeps the origin it was given
   let zorigin := if z.isEmpty then origin else r.zoneOrigin
